@@ -54,8 +54,10 @@ func makeURLKey(u *url.URL) string {
 	if u.Opaque != "" {
 		return u.Opaque
 	}
-	// RFC 3986 §6.2.2.3: Path normalization (dot-segment removal) is handled by
-	// [url.URL.ResolveReference], which uses the RFC 3986 §5.2.4 algorithm.
+	// RFC 3986 §6.2.2.3: Path normalization (dot-segment removal) is done by
+	// removeDotSegments below. [url.URL.ResolveReference] is only used for the
+	// other components: its path resolution drops empty segments after a ".." at
+	// the root ("/..//" becomes "/" instead of "//").
 	base, _ := url.Parse(u.Scheme + "://" + u.Host)
 	normalized := base.ResolveReference(u)
 
@@ -77,7 +79,7 @@ func makeURLKey(u *url.URL) string {
 
 	// RFC 3986 §6.2.3: An empty path for http/https is normalized to "/".
 	// Also see https://datatracker.ietf.org/doc/html/rfc7230#section-2.7.3
-	path := normalized.EscapedPath()
+	path := removeDotSegments(u.EscapedPath())
 	if path == "" && (scheme == "http" || scheme == "https") {
 		path = "/"
 	}
@@ -94,6 +96,47 @@ func makeURLKey(u *url.URL) string {
 	// RFC 3986 §6.1 Equivalence: "fragment components (if any) should be excluded from
 	// the comparison"
 	return result
+}
+
+// removeDotSegments implements the remove_dot_segments algorithm of RFC 3986 §5.2.4
+// on an (escaped) path.
+func removeDotSegments(path string) string {
+	var out []string
+	in := path
+	for len(in) > 0 {
+		switch {
+		case strings.HasPrefix(in, "../"): // A
+			in = in[3:]
+		case strings.HasPrefix(in, "./"):
+			in = in[2:]
+		case strings.HasPrefix(in, "/./"): // B
+			in = in[2:]
+		case in == "/.":
+			in = "/"
+		case strings.HasPrefix(in, "/../"): // C
+			in = in[3:]
+			if len(out) > 0 {
+				out = out[:len(out)-1]
+			}
+		case in == "/..":
+			in = "/"
+			if len(out) > 0 {
+				out = out[:len(out)-1]
+			}
+		case in == "." || in == "..": // D
+			in = ""
+		default: // E: move the first path segment (including any initial "/") to the output
+			end := strings.IndexByte(in[1:], '/')
+			if end < 0 {
+				out = append(out, in)
+				in = ""
+			} else {
+				out = append(out, in[:end+1])
+				in = in[end+1:]
+			}
+		}
+	}
+	return strings.Join(out, "")
 }
 
 // normalizePercentEncoding rewrites percent-encoded characters in a URL path or query
